@@ -9,10 +9,17 @@ import PV.Gen.C09TypedParsers
     entries <k> <hex src> <full-lexer 0/1> <hex A0> <hex Ak>
     lexes   <k> <hex src> <full-lexer 0/1> <hex A0> <hex Ak>
 
-  `A0`/`Ak` are the real code's answers to `top 0 src` / `top k src` (fields `m e i` = the free
-  function `parse_starts_at` per mode, `rm re ri` = the parser run on the UNFILTERED token stream,
-  `lex.m lex.e lex.i` = `lexer::lex_starts_at`), i.e. the values of the model's parameters
-  `parseTop` and `lexTop` at this source.  Trees travel as Rust `{:?}` text.
+  `A0`/`Ak` are the real code's answers to `top 0 src` / `top k src` (fields `m e i` = the public
+  `parse_tokens` on the lexer's stream per mode, i.e. `parse_filtered_tokens` — what the LALRPOP parser
+  answers to marker + filtered stream, WITHOUT the `not_before` clamp; `lex.m lex.e lex.i` =
+  `lexer::lex_starts_at`), i.e. the values of the model's parameters `parseTop` and `lexTop` at this
+  source.  Trees travel as Rust `{:?}` text.
+
+  What the model computes itself and the driver therefore checks against the code: the trivia filter
+  (a comment token reaching `parseTop` is answered with `model-unfiltered-trivia`), the position of the
+  start marker (answered with `model-marker-mismatch` when the real result shows another one: the
+  `Mod*` range start with all-nodes-with-ranges, the `Eof` offset of an empty stream), the clamp
+  `not_before`, every projection of the typed parsers.
 -/
 open PV PV.C09
 
@@ -98,7 +105,14 @@ def parseDbg (s : String) : Option Dbg :=
 
 /-! ### the model instantiated on `{:?}` trees -/
 
-abbrev σD : Sig := ⟨Unit, Bool, Dbg, Dbg, Dbg, Dbg, Dbg, Dbg, Dbg⟩
+/-- one item of a token stream as far as `parse_filtered_tokens` looks at it -/
+structure DTok where
+  trivia : Bool                 -- `Ok((Comment(..) | NonLogicalNewline, _))`
+  start : Option Nat            -- `Ok((_, range))` ↦ `range.start()`; `Err(_)` ↦ none
+  mark : Option (Nat × Nat)     -- the start marker with its range (never produced by the lexer)
+  deriving Inhabited
+
+abbrev σD : Sig := ⟨Unit, DTok, Dbg, Dbg, Dbg, Dbg, Dbg, Dbg, Dbg⟩
 
 def field (fs : List (String × Dbg)) (name : String) : Option Dbg :=
   (fs.find? (·.1 == name)).map (·.2)
@@ -215,16 +229,54 @@ def modeKey : Mode → String
   | .expression => "e"
   | .interactive => "i"
 
-/-- the model's environment at one offset: the token stream is abstracted to "raw" (`[true, false]`:
-    may contain trivia) which the full-lexer filter turns into "filtered" (`[false]`); `parseTop`
-    answers with the real parser's result for the corresponding stream. -/
+/-- `(toks <Debug of Tok>@a..b<US>…[<US>(err kind offset)])` as sent by the harness (`show_lex`) -/
+def parseToks (s : String) : List DTok :=
+  if !(s.startsWith "(toks ") || s == "(toks )" then [] else
+  let body := ((s.drop 6).dropEnd 1).toString
+  (body.splitOn "\x1f").map fun item =>
+    if item.startsWith "(err " then { trivia := false, start := none, mark := none } else
+    let r := (item.splitOn "@").getLast?.getD ""
+    let a := ((r.splitOn "..").head?.getD "").toNat?
+    { trivia := item.startsWith "Comment(" || item.startsWith "NonLogicalNewline@", start := a, mark := none }
+
+/-- where the real result shows the marker to have been: the start of the `Mod*` range (when the node
+    carries one) and, for a stream without tokens, the offset of the end-of-input error (the marker's end) -/
+def markerSeen (real : Res (Mod σD)) (rest : List DTok) : Option Nat × Option Nat :=
+  let startOf (r : Dbg) : Option Nat :=
+    match r with
+    | .atom t => match t.splitOn ".." with
+      | [a, _] => a.toNat?
+      | _ => none
+    | _ => none
+  match real with
+  | .ok (.module m) => (startOf m.range, none)
+  | .ok (.interactive m) => (startOf m.range, none)
+  | .ok (.expression m) => (startOf m.range, none)
+  | .err "Eof" o => if rest.isEmpty then (none, some o) else (none, none)
+  | _ => (none, none)
+
+/-- the model's environment at one offset.  `lexTop` is the attached token stream; `parseTop` answers
+    with the attached result of the real parser, provided the model hands it what the real code handed
+    the real parser: the marker first, at the position the real result shows, and no trivia token. -/
 def envOf (full : Bool) (a : List (String × String)) : Env σD where
   fullLexer := full
-  isTrivia := id
-  marker := fun _ _ _ => false
-  lexTop := fun _ _ _ => [true, false]
+  isTrivia := fun t => t.trivia
+  tokStart := fun t => t.start
+  marker := fun _ x y => { trivia := false, start := some x, mark := some (x, y) }
+  lexTop := fun mode _ _ => parseToks (att a ("lex." ++ modeKey mode))
   parseTop := fun mode toks =>
-    if toks.any id then parseAnswer (att a ("r" ++ modeKey mode)) else parseAnswer (att a (modeKey mode))
+    match toks with
+    | [] => .err "model-no-marker" 0
+    | mk :: rest =>
+      match mk.mark with
+      | none => .err "model-no-marker" 0
+      | some (x, y) =>
+        if rest.any (fun t => t.trivia || t.mark.isSome) then .err "model-unfiltered-trivia" 0 else
+        let real := parseAnswer (att a (modeKey mode))
+        match markerSeen real rest with
+        | (some x', _) => if x == x' then real else .err "model-marker-mismatch" x
+        | (none, some y') => if y == y' then real else .err "model-marker-mismatch" y
+        | (none, none) => real
   view := viewD
 
 def handTypes : List (String × Ty) :=
